@@ -346,6 +346,16 @@ class PropertyCheck:
             hits = forbidden_scan(self.props_modules)
             if hits:
                 broken.append({"kind": "forbidden token", "detail": hits[:10]})
+            if self.tier == "thorough":
+                # independent re-check of the compiled modules by the toolchain's kernel re-checker
+                try:
+                    pc = subprocess.run(["lake", "env", "leanchecker", *self.props_modules], cwd=LEAN_DIR, capture_output=True,
+                                        text=True, timeout=3000)
+                    self.leanchecker = {"rc": pc.returncode, "tail": (pc.stdout + pc.stderr)[-500:]}
+                    if pc.returncode != 0:
+                        broken.append({"kind": "leanchecker rejects a compiled module", "detail": self.leanchecker["tail"]})
+                except FileNotFoundError:
+                    self.leanchecker = {"rc": None, "tail": "leanchecker not found"}
         else:
             # count obligations from source so the evidence still says what was expected
             for m in self.props_modules:
@@ -425,6 +435,7 @@ class PropertyCheck:
                 "source_sha256": {f: sha256_file(REPO / f) for f in self.anchored},
                 "known_findings_replayed": known_lines,
                 "technique": self.technique,
+                "leanchecker": getattr(self, "leanchecker", None),
             },
             "assumptions": list(self.assumptions),
             "wall_s": round(wall, 2),
